@@ -45,7 +45,13 @@ def make_1d(rng, nb=None, read_edges=None):
         kw["weights"] = np.asarray([rng.randint(1, 16) / 4 for _ in range(n)], dtype=float)
     if rng.random() < 0.15:
         kw["keep_missed"] = False
-    if not gapped and rng.random() < 0.12:
+    if not gapped and rng.random() < 0.1:
+        # float32 contents whose partial sums are float32 numbers only if they are formed exactly (2**24 + 1 + 1)
+        from physt.histogram1d import Histogram1D
+
+        vals = np.array([rng.choice([2.0**24, 1.0, 1.0, 5.0, 3.0]) for _ in range(len(pairs))], dtype=np.float32)
+        h = Histogram1D(np.array([p[0] for p in pairs] + [pairs[-1][1]]), vals, name="src", axis_name="x")
+    elif not gapped and rng.random() < 0.12:
         # integer contents far beyond 2**53 (given directly): the bookkeeping of what a slice cuts off stays exact
         from physt.histogram1d import Histogram1D
 
@@ -64,8 +70,9 @@ def make_1d(rng, nb=None, read_edges=None):
     return h
 
 
-def cross_check_result(rec, r, op, index):
-    """The selection's edge representations must agree with its own bins (cached edges of the source must not leak)."""
+def cross_check_result(rec, r, op, index, source=None):
+    """The selection's edge representations must agree with its own bins (cached edges of the source must not leak), and its bins are
+    the source's intervals: the last selected bin is closed on the right only if it is the source's closed last bin."""
     from ..world import is_hist
 
     if not is_hist(r):
@@ -73,10 +80,23 @@ def cross_check_result(rec, r, op, index):
     with attach.quiet():
         try:
             binnings = r.binnings
+            src_axis = {}
+            if source is not None:
+                if source.ndim == 1 and r.ndim == 1:
+                    src_axis = {0: 0}
+                elif len(set(source.axis_names)) == source.ndim:
+                    src_axis = {i: list(source.axis_names).index(nm) for i, nm in enumerate(r.axis_names) if nm in source.axis_names}
             for ax, b in enumerate(binnings):
                 bins = np.asarray(b.bins, dtype=float)
                 if len(bins) == 0:
                     continue
+                if ax in src_axis:
+                    sb = source.binnings[src_axis[ax]]
+                    sbins = np.asarray(sb.bins, dtype=float)
+                    closed_in_source = bool(sb.includes_right_edge) and len(sbins) and bins[-1, 1] == sbins[-1, 1]
+                    if bool(b.includes_right_edge) and not closed_in_source:
+                        rec.fail(prop="C11", monitor="C11.index.post", op=op, symptom="a selection that leaves out the source's last bin closes its own last bin on the right (a half-open bin of the source became a closed one)",
+                                 diff=["bins", "includes_right_edge"], detail={"index": repr(index)[:100], "axis": ax, "last_bin": bins[-1].tolist(), "source_last_bin": sbins[-1].tolist()})
                 cons = np.array_equal(bins[1:, 0], bins[:-1, 1])
                 if b.bin_count != len(bins):
                     rec.fail(prop="C11", monitor="C11.index.post", op=op, symptom="bin_count of the selection's binning differs from its bins", diff=["bins"], detail={"index": repr(index)[:100]})
@@ -172,7 +192,7 @@ def case_1d(ctx, index, rng: random.Random):
         with warnings.catch_warnings():
             warnings.simplefilter("ignore")
             r = h.select(0, ix) if kind == "select" else h[ix]
-        cross_check_result(rec, r, "h[...]", ix)
+        cross_check_result(rec, r, "h[...]", ix, source=h)
     except Exception:
         pass
     cut = False
@@ -231,7 +251,7 @@ def case_nd(ctx, index, rng: random.Random):
         with warnings.catch_warnings():
             warnings.simplefilter("ignore")
             r = h.select(ix[0], ix[1]) if kind == "select" else h[ix]
-        cross_check_result(rec, r, "h[...]", ix)
+        cross_check_result(rec, r, "h[...]", ix, source=h)
     except Exception:
         pass
     ints = [i for i in (ix if isinstance(ix, tuple) else (ix,)) if isinstance(i, (int, np.integer))]
